@@ -13,7 +13,7 @@ META = {
              'lines the effective trivia option selects (as documented), for statements the adjacent blank lines, and the else/elif/finally header when a block is created or '
              'emptied. Oracle after each successful edit: (1) there is a single splice inside R explaining the change (after starts with before[:r0] and ends with before[r1:]); '
              'else (2) every token (COMMENT included) outside R keeps its text and order (subsequence of the new token stream) and every non-blank line wholly outside the '
-             'touched line range is byte-identical and in order. A cell is (op, element class, field, trivia option, level that passed).'),
+             'touched line range is byte-identical and in order. A cell is (op, element class, field, trivia option, level that passed). A deterministic BOUNDARY table (18 hostile comment layouts x every target x 12 operations x 7 trivia options) runs first in both tiers; a comment outside the statement that encloses an expression-level element can never be attributed to that element\'s edit.'),
     'budget': {'quick': 45, 'thorough': 900},
     'floors': {'quick': {'edits_judged': 6000, 'level1_exact_splice': 3000, 'comments_outside_region_checked': 20000}, 'thorough': {'edits_judged': 150000, 'level1_exact_splice': 80000, 'comments_outside_region_checked': 500000}},
     'assumptions': ['R is computed by the monitor from the pre-edit text; it is deliberately a superset of what a minimal edit needs (both adjoining separators, all enclosing parentheses), so it cannot raise '
